@@ -1064,10 +1064,21 @@ class Interpreter(BaseInterpreter[TContext, TEvent]):
         self._register_in_system(
             spawn_params.get("systemId"), child_interpreter
         )
-        await child_interpreter.start()
-
+        # 📇 Register BEFORE starting. `start()` suspends, and a `stop()` of
+        #    this interpreter that runs meanwhile only stops the children it
+        #    finds in `_actors`: a child registered after its start was left
+        #    running - run loop, timers and all - by a parent stopped in
+        #    between. If the start is interrupted the child is torn down here.
         self._actors[actor_id] = child_interpreter
         self._actor_sources[actor_id] = actor_machine_key
+        try:
+            await child_interpreter.start()
+        except BaseException:
+            self._actors.pop(actor_id, None)
+            self._actor_sources.pop(actor_id, None)
+            await child_interpreter.stop()
+            await child_interpreter.task_manager.cancel_all()
+            raise
         logger.info(
             "✅ Actor '%s' (child of '%s') spawned and started successfully.",
             actor_id,
